@@ -26,6 +26,13 @@ def main():
     with scratch() as d:
         recs = run_cjobs(MODULES, eff_seed(), cap=8 if quick else 32, workdir=d, derived=4 if quick else 30,
                          select=sel, ops=OPS, heap=True)
+        if not a.only:
+            # the final procedure of each host-realisable test of the repository's own test files (recorded)
+            from ..testrec import add_test_edges
+            _, other = add_test_edges(rep, a.tier, d, units=False, fwd=False, purity=False, c_units=30 if quick else 400, heap=True)
+            trecs = [o for o in other if o.get("kind") == "cunit"]
+            rep.add_cov(repo_test_final_procedures=sum(1 for o in trecs if o.get("status") == "compiled"))
+            recs += trecs
         comp = [r for r in recs if r["status"] == "compiled"]
         cunits = [r["unit"] for r in comp]
         hunits = [r["heap_unit"] for r in comp if "heap_unit" in r]
@@ -83,7 +90,8 @@ def main():
                        "primitives); (1) the IR produced by the real MemoryAnalysis is run by TLC with Free statements: no access "
                        "or window creation after free (also through window aliases), no double free, every allocation freed when "
                        "its scope exits; (2) the compiled C, built with ASan+UBSan+LSan and -Werror=discarded-qualifiers, is "
-                       "executed on the same bounded inputs; an abort or compiler-error event is rejected by the trace spec")
+                       "executed on the same bounded inputs; an abort or compiler-error event is rejected by the trace spec; the final "
+                       "procedure of every host-realisable test of the repository's own test files is treated the same way")
     rep.assumptions += ["signed overflow / division by zero are observed only on small inputs (UBSan), not at sizes near 2^31"]
     return rep.finish()
 
